@@ -482,6 +482,49 @@ def rule_greedy(ctx: Ctx, which: str) -> None:
 
 # --------------------------------------------------------------------------- KAISA grid
 
+def rule_rank_arg(ctx: Ctx, which: str) -> None:
+    """RANK-ARG: the assignment is built for this process's *global* rank in the default group and for the global
+    world size — the coordinates every root / membership test of the step is expressed in."""
+    p = ctx.prog
+    ctx.rule('RANK-ARG', "the assignment's local_rank is get_rank() of the default group (the global rank) and world_size is get_world_size()", floor=1)
+    owner, cls = (('preconditioner.KFACPreconditioner.__init__', 'KAISAAssignment') if which == 'KAISA'
+                  else ('gpt_neox.preconditioner.GPTNeoXKFACPreconditioner.__init__', 'GPTNeoXAssignment'))
+    f = p.get_func(owner)
+    sites = [c for c in p.calls_in(f) if norm(c.func) == cls]
+    if not sites:
+        raise AnalysisIncomplete(f'{owner}: no construction of {cls} found')
+    dist_mod = p.modules.get('kfac.distributed') or p.modules.get('distributed')
+    for c in sites:
+        kws = {k.arg: k.value for k in c.keywords}
+        g = p.get_func(f'{cls_path(which)}.__init__')
+        names = [a for a in g.params if a != 'self']
+        for i, a in enumerate(c.args):
+            if i < len(names):
+                kws.setdefault(names[i], a)
+        want = {'local_rank': 'get_rank'} if which != 'KAISA' else {'local_rank': 'get_rank', 'world_size': 'get_world_size'}
+        for k, fn in want.items():
+            v = kws.get(k)
+            ok = isinstance(v, ast.Call) and norm(v.func) in (fn, f'kfac.distributed.{fn}', f'distributed.{fn}') and not v.args and not v.keywords
+            if ok:
+                tg = [t for t in p.resolve_call(f, v) if t.kind == 'func']
+                ok = bool(tg) and all(t.ref.short == f'distributed.{fn}' for t in tg)
+            ctx.check(ok, 'RANK-ARG', f, f'{cls}({k}={fn}())', f'{cls} {k}',
+                      f'{owner}: {cls} is built with {k}={norm(v) if v is not None else None}; every root and membership test of the step is in global ranks of the default group, '
+                      f'so {k} must be {fn}() (a launcher-local or group-relative value differs on multi-node / sub-group runs)', v if v is not None else c)
+    # the accessor itself: the rank of the default group when initialised, else 0
+    for fn, want_ret in (('get_rank', ('dist.get_rank(group)', '0')), ('get_world_size', ('dist.get_world_size(group)', '1'))):
+        g = p.get_func(f'distributed.{fn}')
+        def leaves(e: ast.expr) -> list[str]:
+            return leaves(e.body) + leaves(e.orelse) if isinstance(e, ast.IfExp) else [norm(e)]
+        rets = sorted(x for r in p.nodes(g) if isinstance(r, ast.Return) and r.value is not None for x in leaves(r.value))
+        ctx.check(rets == sorted(want_ret), 'RANK-ARG', g, f'{fn}() = {want_ret[0]} if initialised else {want_ret[1]}', fn,
+                  f'distributed.{fn} returns {rets}; specified: {want_ret[0]} when torch.distributed is initialised, else {want_ret[1]}', g.node)
+
+
+def cls_path(which: str) -> str:
+    return KA if which == 'KAISA' else GA
+
+
 def _dict_builds(p, f, name: str) -> list[tuple[str, str, str, str]]:  # noqa: ANN001
     """(key, value, iterable, loop target) of every way `name` is filled per element of an iterable:
     `for t in it: name[k] = v` and `name = {k: v for t in it}` are the same construction."""
@@ -740,6 +783,21 @@ def rule_role_grp(ctx: Ctx) -> None:
         got, node = inter_roles(g)
         ctx.check(got == want, 'ROLE-GRP', g, f'{m}: intersection of {sorted(got)}', m,
                   f'GPTNeoXAssignment.{m} intersects {sorted(got)}; specified: {sorted(want)}', node or g.node)
+        # every exit returns the single element of (a test on) that intersection: no other path decides the role
+        for r in [n for n in p.nodes(g) if isinstance(n, ast.Return)]:
+            derived = False
+            todo = [r.value] if r.value is not None else []
+            seen_n: set[str] = set()
+            while todo and not derived:
+                e = todo.pop()
+                for x in ast.walk(e):
+                    if x is node:
+                        derived = True
+                    if isinstance(x, ast.Name) and isinstance(x.ctx, ast.Load) and x.id not in seen_n:
+                        seen_n.add(x.id)
+                        todo.extend(p.local_defs(g, x.id))
+            ctx.check(derived, 'ROLE-GRP', g, f'{m}: {norm(r)} returns the element of the intersection', f'{m} {norm(r)[:60]}',
+                      f'GPTNeoXAssignment.{m}: {norm(r)} does not come from the intersection {sorted(want)}: on that path the role is decided by something else', r)
         rets = [n for n in p.nodes(g) if isinstance(n, ast.Return) and n.value is not None]
         if m == 'is_grad_worker':
             ok = len(rets) == 1 and re.sub(r'\s+', '', norm(rets[0].value)).startswith('len(') and re.sub(r'\s+', '', norm(rets[0].value)).endswith(')==1')
